@@ -619,6 +619,12 @@ def gen_host_case(rng, idx):
     tasks = []
     for _ in range(ntasks):
         tasks.append([rng.below(ncmds) for _ in range(rng.choice([1, 1, 2, 3]))])
+    if idx % 3 == 1:
+        # a third of the cases contain commands whose transmission raises (unencodable / sink raises)
+        for t in tasks:
+            for k in range(len(t)):
+                if rng.chance(1, 5):
+                    t[k] = rng.choice([FAULT_UNENCODABLE, FAULT_SINK])
     mode = 'real' if idx % 2 == 0 else 'scripted'
     credits = [rng.choice([1, 1, 1, 2, 5, 255]) for _ in range(sum(len(t) for t in tasks))]
     # the schedule: a seed for the per-turn choices, so the replay is self-contained
@@ -631,6 +637,9 @@ def gen_host_case(rng, idx):
 
 
 LAST_CANCEL_KINDS = {}
+LAST_HOST_END = {}
+FAULT_UNENCODABLE = 100      # task command indices: a command whose transmission raises
+FAULT_SINK = 101
 
 
 async def _run_host_case(case):
@@ -655,8 +664,13 @@ async def _run_host_case(case):
     script = list(case.get('script') or [])
     credits = list(case['credits'])
 
+    armed_for = {}                # caller id -> its next packet makes the sink raise
+    rng_faults = Rng(case['sched_seed'] ^ 0x5EED)
+
     class HostSide:
         def on_packet(self, data):
+            if armed_for.pop(current.get(asyncio.current_task(), -1), False):
+                raise OSError('the transport sink refuses this packet')     # nothing reaches the wire
             data = bytes(data)
             c = current.get(asyncio.current_task(), -1)
             trace.append(['send', c, data[1] | (data[2] << 8)])
@@ -711,14 +725,29 @@ async def _run_host_case(case):
 
     async def task_body(indices):
         for ci in indices:
-            cmd = cmds[ci]
-            if case['mode'] == 'scripted' and not b_scripted_ok(cmd):
-                cmd = cmds[0] if b_scripted_ok(cmds[0]) else cmds[9]
+            fault = None
+            if ci == FAULT_UNENCODABLE:
+                # a parameter that does not fit its field: bytes(command) raises inside send_hci_packet
+                cmd = rng_faults.choice([
+                    hci.HCI_LE_Set_Scan_Enable_Command(le_scan_enable=0x1FF, filter_duplicates=0),
+                    hci.HCI_LE_Set_Scan_Parameters_Command(le_scan_type=0, le_scan_interval=70000, le_scan_window=16,
+                                                           own_address_type=0, scanning_filter_policy=0),
+                    hci.HCI_Disconnect_Command(connection_handle=0x12345, reason=0x13)])
+                fault = 'unencodable'
+            elif ci == FAULT_SINK:
+                cmd = cmds[0]
+                fault = 'sink'
+            else:
+                cmd = cmds[ci]
+                if case['mode'] == 'scripted' and not b_scripted_ok(cmd):
+                    cmd = cmds[0] if b_scripted_ok(cmds[0]) else cmds[9]
             c = next_id[0]
             next_id[0] += 1
             current[asyncio.current_task()] = c
             callers[c] = [cmd.op_code, 'pending']
             trace.append(['call', c, cmd.op_code])
+            if fault == 'sink':
+                armed_for[c] = True
             try:
                 resp = await host.send_command(cmd)
             except TransportLostError:
@@ -735,6 +764,11 @@ async def _run_host_case(case):
                 trace.append(['failed', c])
                 continue
             except Exception as e:      # noqa
+                if fault and not any(ev[0] == 'send' and ev[1] == c for ev in trace):
+                    # the transmission raised: the caller has its exception, nothing went out
+                    callers[c][1] = 'sendfail'
+                    trace.append(['sendfail', c])
+                    continue
                 callers[c][1] = 'error:' + type(e).__name__
                 trace.append(['failed', c])
                 continue
@@ -834,6 +868,10 @@ async def _run_host_case(case):
     await asyncio.sleep(0)
     LAST_CANCEL_KINDS.clear()
     LAST_CANCEL_KINDS.update(cancel_kinds)
+    LAST_HOST_END.clear()
+    LAST_HOST_END.update({'gate_locked': host.command_semaphore.locked(), 'pending_command': host.pending_command is not None})
+    if not hung:
+        trace.append(['end', host.command_semaphore.locked(), host.pending_command is not None])
     return trace, callers, hung
 
 
@@ -879,6 +917,11 @@ def host_oracle(trace, callers, hung, expect_block=False):
         elif ev[0] == 'resumed':
             if ev[2] != ops.get(ev[1]):
                 return (sig('B:wrong-response'), f'caller {ev[1]} sent {ops.get(ev[1]):#06x} and was resumed with the response to {ev[2]:#06x}')
+        elif ev[0] == 'end':
+            if not expect_block and not lost and (ev[1] or ev[2]):
+                return (sig('B:gate-stuck'), f'all callers finished but the command gate is '
+                                             f'{"locked" if ev[1] else "free"} and pending_command is '
+                                             f'{"set" if ev[2] else "None"}: later commands would block')
         elif ev[0] == 'failed':
             return (sig('B:caller-failed'), f'send_command of caller {ev[1]} raised ({callers[ev[1]][1]})')
         elif ev[0] == 'host-error':
@@ -929,6 +972,9 @@ def trace_to_labels(trace):
             sent = any(e[0] == 'send' and e[1] == ev[1] for e in trace)
             labels.append(f'Resume {coq_z(ev[1])}' if sent else f'Acquire {coq_z(ev[1])}')
             obs.append((4, ev[1], 0))
+        elif ev[0] == 'sendfail':
+            labels.append(f'AcquireFail {coq_z(ev[1])}')
+            obs.append((5, ev[1], 0))
         elif ev[0] == 'cancelled':
             # the model's Cancel step is the moment the cancelled task runs (CancelledError leaves
             # _send_command); the harness makes no delivery between task.cancel() and that moment
@@ -988,6 +1034,16 @@ B_SCRIPTED = [
     {'name': 'cancel-owner-unanswered-queued', 'tasks': [[0], [2]], 'credits': [1, 1], 'expect_block': False,
      'script': [['start'], ['start'], ['idle'], ['cancel', 0], ['idle'], ['ctrl'], ['host'], ['idle'], ['ctrl'],
                 ['host'], ['idle'], ['idle']]},
+    # the transmission of a command raises (unencodable parameter / the sink raises): that caller gets its
+    # exception, the gate is free again, the callers behind it are served
+    {'name': 'send-raises-unencodable', 'tasks': [[100], [0], [2]], 'credits': [1, 1, 1], 'expect_block': False,
+     'script': [['start'], ['start'], ['start'], ['idle'], ['ctrl'], ['host'], ['idle'], ['idle'], ['ctrl'], ['host'],
+                ['idle'], ['idle']]},
+    {'name': 'send-raises-sink-while-queued', 'tasks': [[0], [101], [2]], 'credits': [1, 1, 1], 'expect_block': False,
+     'script': [['start'], ['start'], ['start'], ['idle'], ['ctrl'], ['host'], ['idle'], ['idle'], ['ctrl'], ['host'],
+                ['idle'], ['idle']]},
+    {'name': 'send-raises-last', 'tasks': [[0], [100]], 'credits': [1, 1], 'expect_block': False,
+     'script': [['start'], ['ctrl'], ['host'], ['idle'], ['idle'], ['start'], ['idle'], ['idle']]},
     # transport lost while a command is outstanding and two callers are queued: the owner fails with
     # TransportLostError, the queued callers fail as soon as they get the gate, a later caller too
     {'name': 'transport-lost-outstanding', 'tasks': [[0], [2], [5], [7]], 'credits': [1, 1, 1, 1], 'expect_block': False,
@@ -1037,6 +1093,7 @@ def campaign_host(ctx):
         ctx.count('B.callback_errors', len(errors))
         for k, v in ckinds.items():
             ctx.count('B.cancel.' + k, v)
+        ctx.count('B.send_failures', sum(1 for ev in trace if ev[0] == 'sendfail'))
         if any(ev[0] == 'lose' for ev in trace):
             ctx.count('B.cases_with_transport_loss')
         if case.get('cancel_rate') or any(a[0] in ('cancel', 'hostcancel') for a in (case.get('script') or [])):
@@ -1050,13 +1107,13 @@ def campaign_host(ctx):
             ctx.disagree('HostCmd trace acceptance', replay, 'trace rejected by the model', trace[-8:])
             continue
         mobs, mphases, (mq, mall, mout) = m[1]
-        impl_phases = sorted([c, {'pending': None, 'done': 2, 'assert': 3, 'cancelled': 4, 'lost': 5}.get(st, 3)]
+        impl_phases = sorted([c, {'pending': None, 'done': 2, 'assert': 3, 'cancelled': 4, 'lost': 5, 'sendfail': 6}.get(st, 3)]
                              for c, (op, st) in callers.items())
-        model_phases = sorted([c, ph if ph in (2, 3, 4, 5) else None] for (c, ph, r) in mphases)
+        model_phases = sorted([c, ph if ph in (2, 3, 4, 5, 6) else None] for (c, ph, r) in mphases)
         if [tuple(x) for x in mobs] != obs or impl_phases != model_phases:
             ctx.disagree('HostCmd observations', replay, [mobs, model_phases], [obs, impl_phases])
         resumed_with = {ev[1]: ev[2] for ev in trace if ev[0] == 'resumed'}
-        all_done = all(st in ('cancelled', 'lost') or (st == 'done' and resumed_with.get(c) == op)
+        all_done = all(st in ('cancelled', 'lost', 'sendfail') or (st == 'done' and resumed_with.get(c) == op)
                        for c, (op, st) in callers.items())
         if bool(mall) != all_done:
             ctx.disagree('HostCmd all_answered', replay, mall, all_done)
